@@ -297,6 +297,37 @@ theorem good_stepCrash (s : St) (k : Nat) (v : Option View) (h : Inv s) : Good s
   · exact (good_deleteOne s k h).trans (good_stepRestart _ v (good_deleteOne s k h).1)
   · exact Good.refl h
 
+theorem good_stepLegacy (s : St) (k : Nat) (h : Inv s) : Good s (stepLegacy s k).1 := by
+  obtain ⟨h1, h2, h3, h4, h5, h6, h7, h8⟩ := h
+  unfold stepLegacy
+  split
+  · exact Good.refl ⟨h1, h2, h3, h4, h5, h6, h7, h8⟩
+  · refine ⟨?_, ?_⟩
+    · constructor <;> intro j <;> simp only [upd] <;> grind
+    · intro j; simp only [upd]; grind
+
+theorem good_faultOne (s : St) (k : Nat) (h : Inv s) : Good s (faultOne s k) := by
+  unfold faultOne
+  split
+  · rename_i hs; exact good_setLive s k h hs
+  · exact good_deleteOne s k h
+
+theorem good_faultChildren (s : St) (p : Nat) (h : Inv s) : Good s (faultChildren s p) := by
+  unfold faultChildren
+  refine good_foldl _ ?_ _ s h
+  intro s c hs
+  split
+  · exact Good.refl hs
+  · exact good_faultOne s c hs
+
+theorem good_stepRunFault (s : St) (h : Inv s) : Good s (stepRunFault s) := by
+  unfold stepRunFault
+  refine good_foldl _ ?_ _ s h
+  intro s k hs
+  split
+  · rename_i hst; exact good_setLive s k hs hst
+  · exact (good_deleteOne s k hs).trans (good_faultChildren _ k (good_deleteOne s k hs).1)
+
 theorem good_step (s : St) (op : Op) (h : Inv s) : Good s (step s op).1 := by
   cases op with
   | put k => exact good_stepPut s k h
@@ -306,6 +337,8 @@ theorem good_step (s : St) (op : Op) (h : Inv s) : Good s (step s op).1 := by
   | edit k => exact good_stepEdit s k h
   | head k => exact good_stepHead s k h
   | run => exact good_stepRun s h
+  | runFault => exact good_stepRunFault s h
+  | legacy k => exact good_stepLegacy s k h
   | restart v => exact good_stepRestart s v h
   | crash k v => exact good_stepCrash s k v h
   | deliver v => exact good_applyView s v h
@@ -736,8 +769,23 @@ theorem both_stepCrash (s : St) (k : Nat) (v : Option View) (h : Both s) : Both 
   · exact both_restart_of_invK _ v (good_deleteOne s k h.1).1 (invK_deleteOne s k h.2)
   · exact h
 
-theorem both_step (s : St) (op : Op) (h : Both s) : Both (step s op).1 := by
+theorem invC_stepLegacy (s : St) (k : Nat) (hi : Inv s) (h : InvC s) : InvC (stepLegacy s k).1 := by
+  obtain ⟨h1, h2, h3, h4, h5, h6, h7, h8⟩ := hi
+  obtain ⟨c1, c2, c3, c4⟩ := h
+  unfold stepLegacy
+  split
+  · exact ⟨c1, c2, c3, c4⟩
+  · constructor
+    · exact c1
+    · intro c p; simp only [upd]; grind
+    · intro p; simp only [upd]; grind
+    · exact c4
+
+/-- every step except a storage-faulted worker pass keeps the child invariant -/
+theorem both_step (s : St) (op : Op) (hop : op ≠ .runFault) (h : Both s) : Both (step s op).1 := by
   cases op with
+  | runFault => exact absurd rfl hop
+  | legacy k => exact ⟨(good_stepLegacy s k h.1).1, invC_stepLegacy s k h.1 h.2⟩
   | put k => exact both_stepPut s k h
   | fetch k =>
     simp only [step, stepFetch]
@@ -790,9 +838,11 @@ theorem both_step (s : St) (op : Op) (h : Both s) : Both (step s op).1 := by
             · exact invC_same _ _ h.2 rfl rfl rfl rfl rfl rfl
   | record r => exact ⟨(good_recs s _ h.1).1, invC_same _ _ h.2 rfl rfl rfl rfl rfl rfl⟩
 
-theorem both_run (s : St) (ops : List Op) (h : Both s) : Both (run s ops) := by
-  unfold run
-  exact both_foldl (fun s op => (step s op).1) (fun s op hs => both_step s op hs) ops s h
+theorem both_run : ∀ (ops : List Op) (s : St), (∀ op ∈ ops, op ≠ .runFault) → Both s → Both (run s ops)
+  | [], _, _, h => h
+  | op :: ops, s, hn, h => by
+    simp only [run, List.foldl]
+    exact both_run ops _ (fun o ho => hn o (by simp [ho])) (both_step s op (hn op (by simp)) h)
 
 /-! ## after a worker run nothing is left queued -/
 
